@@ -84,7 +84,9 @@ class FG:
         if fault == "index":
             n = 3
             return r.choice([(S("vector-ref"), [S("vv"), t(k)]) for k in (-1, n, n + 1)] + [(S("vector-set!"), [S("vv"), t(k), 9]) for k in (-1, n, n + 2)]
-                            + [(S("vector-ref"), [S("lit"), 3]), (S("vector-ref"), [[S("vector")], t(0)])])
+                            + [(S("vector-ref"), [S("lit"), 3]), (S("vector-ref"), [[S("vector")], t(0)]),
+                               # a store into a freshly made EMPTY vector: an index fault (the vector is a mutable one), not a literal-mutation fault
+                               (S("vector-set!"), [[S("vector")], t(0), 9]), (S("vector-set!"), [[S("make-vector"), 0, 1], 0, t(9)])])
         if fault == "literal-mutation":
             return r.choice([(S("vector-set!"), [S("lit"), t(0), 9]), (S("vector-set!"), [q(Vec([1, 2])), 1, t(9)]), (S("vector-set!"), [Vec([1]), 0, 0])])
         if fault == "div0":
